@@ -47,6 +47,12 @@ type c30Case struct {
 	// Overlap: a second batch is externalised (same configuration) while the
 	// first one's upload is still in flight
 	Overlap     bool  `json:"overlap,omitempty"`
+	// Cuts: the first len(Cuts) download attempts break off after the headers
+	// and that many per-mille of the body; a later attempt succeeds (the
+	// configuration allows three attempts). NoSHA: the pointer is presented
+	// without its optional checksum key.
+	Cuts  []int `json:"cuts,omitempty"`
+	NoSHA bool  `json:"no_sha,omitempty"`
 	Entropy     int   `json:"entropy,omitempty"`
 	EntropySeed int64 `json:"entropy_seed,omitempty"`
 }
@@ -141,6 +147,12 @@ func genC30(t *rapid.T) c30Case {
 		}
 		if c.Tamper == "" && rapid.IntRange(0, 3).Draw(t, "overlap?") == 0 {
 			c.Overlap = true
+		}
+		if c.Tamper == "" && rapid.IntRange(0, 3).Draw(t, "cuts?") == 0 {
+			for i, n := 0, rapid.IntRange(1, 2).Draw(t, "ncuts"); i < n; i++ {
+				c.Cuts = append(c.Cuts, []int{0, 1, 250, 500, 750, 999}[rapid.IntRange(0, 5).Draw(t, "cutat")])
+			}
+			c.NoSHA = rapid.Bool().Draw(t, "nosha")
 		}
 		if rapid.IntRange(0, 3).Draw(t, "entropy?") == 0 {
 			c.Entropy = []int{64, 512, 4096}[rapid.IntRange(0, 2).Draw(t, "entropy")]
@@ -463,6 +475,23 @@ func runC30Roundtrip(c c30Case, orig lib.BatchM, out *lib.Outcome) {
 		}
 		mismatch = downloadMismatch(served, up.enc, wantSHA)
 	}
+	if len(c.Cuts) > 0 && c.Tamper == "" {
+		theBlobOrigin().interrupt(up.path, c.Cuts)
+		cfg.MaxRetries = 2
+		out.Label("interrupted-download")
+		if c.NoSHA {
+			// the checksum key is optional on a pointer: without it nothing but the
+			// fetcher itself stands between a botched retry and the handler
+			var ks, vs []string
+			for i, k := range extMeta.Keys() {
+				if k != lib.KLocationSHA {
+					ks, vs = append(ks, k), append(vs, extMeta.Values()[i])
+				}
+			}
+			extMeta = arrow.NewMetadata(ks, vs)
+			out.Label("interrupted-download:no-checksum")
+		}
+	}
 	resolved, _, rerr := vgirpc.ResolveExternalLocation(ext, extMeta, cfg)
 	if rerr != nil {
 		if c.Tamper == "" {
@@ -594,12 +623,12 @@ func runC30Stream(c c30Case, orig lib.BatchM, out *lib.Outcome) {
 
 var propC30 = lib.Prop[c30Case]{
 	ID: "C30",
-	Rule: "roundtrip cases: generated batch (1-5 columns of any supported type incl. nested/dictionary, 1-48 rows, user schema/field/batch metadata, optionally a column of 64-4096 incompressible bytes per row, optionally with another batch externalised under the same configuration while the upload is in flight), threshold = the batch's buffer size (top-level or with children) -64..+64 or far away, zstd off/levels, " +
+	Rule: "roundtrip cases: generated batch (1-5 columns of any supported type incl. nested/dictionary, 1-48 rows, user schema/field/batch metadata, optionally a column of 64-4096 incompressible bytes per row, optionally with another batch externalised under the same configuration while the upload is in flight, optionally with the first one or two download attempts breaking off after 0-99.9% of the body before one succeeds, the pointer then presented with or without its optional checksum key), threshold = the batch's buffer size (top-level or with children) -64..+64 or far away, zstd off/levels, " +
 		"optional tampering of the stored object; stream cases: pointer to a harness-assembled stream of 0-5 {data, log, EXCEPTION, pointer} batches in any order, checksum present/absent/wrong, bytes flipped/truncated/appended, zstd on/off. " +
 		"Non-trivial: a non-data batch follows the data batch in the fetched stream, or the threshold is within 64 bytes of the batch size.",
 	Gen: genC30,
 	Run: runC30,
-	Essential: []string{"near-threshold", "incompressible-column", "overlapping-upload", "nondata-after-data", "roundtrip-ok", "below-threshold", "at-or-above-threshold", "tampered-refused",
+	Essential: []string{"interrupted-download", "interrupted-download:no-checksum", "near-threshold", "incompressible-column", "overlapping-upload", "nondata-after-data", "roundtrip-ok", "below-threshold", "at-or-above-threshold", "tampered-refused",
 		"expect:checksum-refusal", "expect:pointer-refusal", "expect:no-data-refusal", "expect:data", "compress"},
 	EssentialMin: 300,
 	Assumptions: []string{
